@@ -12,7 +12,8 @@ NA_REASONS = json.load(open(os.path.join(VERIF, "tools", "not_applicable.json"))
 for p in props:
     pid = p["id"]
     path = os.path.join(HERE, "props", pid.lower() + ".py")
-    if not os.path.exists(path):
+    READY = json.load(open(os.path.join(VERIF, "tools", "ready.json")))
+    if not os.path.exists(path) or pid not in READY:
         na.append({"property_id": pid, "reason": NA_REASONS.get(pid, "no check built yet (model and obligations not written); not claimed")})
         continue
     mod = importlib.import_module(pid.lower())
